@@ -290,7 +290,7 @@ pub fn cases(tier: Tier) -> Vec<Case> {
         }
     }
     // refresh_rate (humantime): exact seconds, sums, overflow, junk; case is significant there (m/M)
-    let hunits: [(&str, u128); 14] = [("s", 1), ("sec", 1), ("second", 1), ("seconds", 1), ("m", 60), ("min", 60), ("minute", 60), ("minutes", 60), ("h", 3600), ("hour", 3600), ("hours", 3600), ("d", 86400), ("day", 86400), ("days", 86400)];
+    let hunits: [(&str, u128); 25] = [("M", 2_630_016), ("month", 2_630_016), ("months", 2_630_016), ("w", 604_800), ("week", 604_800), ("weeks", 604_800), ("y", 31_557_600), ("year", 31_557_600), ("years", 31_557_600), ("hr", 3600), ("hrs", 3600), ("s", 1), ("sec", 1), ("second", 1), ("seconds", 1), ("m", 60), ("min", 60), ("minute", 60), ("minutes", 60), ("h", 3600), ("hour", 3600), ("hours", 3600), ("d", 86400), ("day", 86400), ("days", 86400)];
     let ns = 1_000_000_000u128;
     for num in &nums {
         if num.starts_with('0') && num.len() > 1 {
@@ -328,7 +328,7 @@ pub fn cases(tier: Tier) -> Vec<Case> {
             out.push(Case { kind: Kind::Refresh, form, text: num.clone(), expect: Expect::Either });
         }
     }
-    for junk in ["10 parsecs", "s", "10 s s", "-5s", "5 s!", "ten seconds", "5sx"] {
+    for junk in ["10 parsecs", "s", "10 s s", "-5s", "5 s!", "ten seconds", "5sx", "30 Seconds", "1 H", "5 MIN", "2 Days"] {
         for form in [Form::YamlQuoted, Form::JsonString, Form::TomlString] {
             out.push(Case { kind: Kind::Refresh, form, text: junk.to_string(), expect: Expect::Reject });
         }
